@@ -6,6 +6,7 @@
 //!   wacsim replay <replay-file.json>
 //!   wacsim selfcheck
 
+mod cli;
 mod corpus;
 mod engine;
 mod gen;
@@ -25,6 +26,11 @@ fn props() -> Vec<PropDef> {
     v.push(PropDef {
         id: "C20",
         run: props::c20::run,
+        arena_sensitive: false,
+    });
+    v.push(PropDef {
+        id: "C19",
+        run: props::c19::run,
         arena_sensitive: false,
     });
     v.push(PropDef {
